@@ -378,7 +378,7 @@ def list_fields(node):
 VIRTUAL_FIELDS = {
     ast.Dict: ['_all'], ast.MatchMapping: ['_all'], ast.Compare: ['_all'], ast.Call: ['_args'],
     ast.ClassDef: ['_bases', '_body'], ast.FunctionDef: ['_body'], ast.AsyncFunctionDef: ['_body'],
-    ast.Module: ['_body'], ast.arguments: ['_all'], ast.MatchClass: ['_all'],
+    ast.Module: ['_body'], ast.arguments: ['_all'], ast.MatchClass: ['_attrs'],
 }
 
 VIRTUAL_CAT = {'_args': 'expr', '_bases': 'expr', '_body': 'stmt'}
@@ -601,6 +601,8 @@ def virtual_len(node, field):
             return (len(node.posonlyargs) + len(node.args) + len(node.kwonlyargs) + bool(node.vararg) + bool(node.kwarg))
         if isinstance(node, ast.MatchClass):
             return len(node.patterns) + len(node.kwd_patterns)
+    if field == '_attrs':
+        return len(node.patterns) + len(node.kwd_patterns)
     if field == '_args':
         return len(node.args) + len(node.keywords)
     if field == '_bases':
